@@ -311,8 +311,35 @@ OptionCases ==
   \/ \E n \in 1..3, qn \in D, qm \in D :
         c = C("opt.gramSchmidt.InSitu.Q", <<n, qn, qm>>, <<>>, <<>>, Cls(qn = n /\ qm = n), <<n, n>>)
 
+(* Caller-supplied or re-used InSitu work space of the wrong size: the      *)
+(* work space member w is wn x wm (vectors: wn) while the input is n x n.  *)
+(* The routine may reject the call or allocate a fitting work space, but a *)
+(* call that returns must deliver the result that lives in / corresponds   *)
+(* to that member with the shape the INPUT demands ("any" + shape); a      *)
+(* fitting work space must be accepted.  f ranges over all combinations    *)
+(* of the routine's Initialize / variant flags (qrAlgorithm: InitializeH,  *)
+(* InitializeU, Symmetric; cholesky: LDL; others: none).                   *)
+InSituMatrixMembers ==
+  { <<"qrAlgorithm", "H", 8>>, <<"qrAlgorithm", "U", 8>>, <<"eigensystem", "Eigenvectors", 2>>,
+    <<"cholesky", "L", 2>>, <<"cholesky", "D", 1>>, <<"matrixInverse", "Id", 2>>, <<"matrixInverse", "A", 2>>,
+    <<"svd", "A", 1>>, <<"svd", "U", 1>>, <<"svd", "V", 1>>,
+    <<"householderBidiagonalization", "A", 1>>, <<"householderBidiagonalization", "U", 1>>,
+    <<"householderBidiagonalization", "V", 1>>, <<"householderTridiagonalization", "A", 1>>,
+    <<"householderTridiagonalization", "U", 1>>, <<"hessenbergReduction", "H", 1>>, <<"hessenbergReduction", "U", 1>>,
+    <<"backSubstitution", "A", 1>>, <<"gramSchmidt", "Q", 1>>, <<"gramSchmidt", "R", 1>> }
+InSituVectorMembers ==
+  { <<"eigensystem", "Eigenvalues", 2>>, <<"matrixInverse", "B", 2>>, <<"backSubstitution", "X", 1>>,
+    <<"newtonRoot", "T1", 1>>, <<"newtonMin", "T1", 1>>, <<"qrAlgorithm", "T4", 8>> }
+InSituCases ==
+  \/ \E x \in InSituMatrixMembers, n \in 1..3, wn \in 1..4, wm \in 1..4 : \E f \in 0..(x[3]-1) :
+        c = C("opt.InSitu." \o x[1] \o "." \o x[2], <<n, wn, wm>>, <<f>>, <<>>,
+              IF wn = n /\ wm = n THEN "ok" ELSE "any", <<n, n>>)
+  \/ \E x \in InSituVectorMembers, n \in 1..3, wn \in 1..4 : \E f \in 0..(x[3]-1) :
+        c = C("opt.InSitu." \o x[1] \o "." \o x[2], <<n, wn>>, <<f>>, <<>>,
+              IF wn = n THEN "ok" ELSE "any", IF x[2] \in {"T4", "T1", "B"} THEN (IF x[1] \in {"newtonRoot", "newtonMin"} THEN <<n>> ELSE <<n, n>>) ELSE <<n>>)
+
 (* -------------------------------------------------------------- output *)
-Init == VectorCases \/ MatrixCases \/ PermuteCases \/ RealCases \/ ShrinkCases \/ AlgoCases \/ OptionCases
+Init == VectorCases \/ MatrixCases \/ PermuteCases \/ RealCases \/ ShrinkCases \/ AlgoCases \/ OptionCases \/ InSituCases
 Next == UNCHANGED c
 Spec == Init /\ [][Next]_c
 
